@@ -80,6 +80,8 @@ def render(t, uni, backend, style=None, md=None):
             return _num(t)
         if k == "Str":
             return repr(t["a"])
+        if k == "Lit":
+            return "1e400" if t["b"] == "inf" else t["b"]
         if k == "Var":
             return nm(t["a"])
         if k == "Tuple":
